@@ -184,6 +184,15 @@ func run(cfg lib.Cfg) error {
 		// the position written with batch 4 is unwound after a restart with batch 2
 		base("rebatch-log-b4c2-to-b2c1", "log", 4, 2, 5, 28, cat(ts.Steps(1, 1), []ts.Act{{Do: "reconfig", K: 2, Len: 1}, {Do: "reorg", Fork: 3, Len: 4}}, ts.Steps(1, 2))),
 	}
+	{
+		// trace indexing through the real jrpc2.Client (second integration => maxreads 2): a step
+		// that fails after its load is retried against the SAME cached block segment
+		b := base("real-trace-b3c1", "trace", 3, 1, 3, 29, ts.Steps(1, 2))
+		b.Real = true
+		b.Gen.AlwaysTrace = true
+		b.IGs = append(b.IGs, ts.IGSpec{Name: "ig2", Shape: "tx", Table: "t2", Sources: []ts.SrcRef{{Name: "main", Start: 1}}})
+		bases = append(bases, b)
+	}
 	if cfg.Thorough() {
 		bases = append(bases,
 			base("growth-trace-b3c3", "trace", 3, 3, 7, 24, cat(ts.Steps(1, 2), []ts.Act{{Do: "grow", K: 2}}, ts.Steps(1, 3))),
@@ -246,7 +255,9 @@ func run(cfg lib.Cfg) error {
 				}
 			}
 			for _, c := range pt.calls {
-				derive("rpcfail-"+c.Key(), ts.Act{Do: "rpcfail", Tid: 1, Call: c.Key()})
+				if !b.Real { // the real client cannot be told to fail a call; its HTTP failures are C01's xfail runs
+					derive("rpcfail-"+c.Key(), ts.Act{Do: "rpcfail", Tid: 1, Call: c.Key()})
+				}
 				derive("rpccrash-"+c.Key(), ts.Act{Do: "rpccrash", Tid: 1, Call: c.Key()})
 			}
 		}
